@@ -86,7 +86,8 @@ func genConc9(prop string, seed uint64, tier string) Scenario {
 			// X=1: wait for the next minute boundary first, so that the call meets the purge tick
 			sc.Ops = append(sc.Ops, Op{K: "api", T: r.n(napi), P: r.n(numAPI9), M: r.n(4), I: r.n(16), D: r.weighted([]int{8, 4, 4, 3, 2, 2, 1, 1, 1, 1}), X: r.pick(0, 0, 0, 1)})
 		} else {
-			sc.Ops = append(sc.Ops, Op{K: "frame", T: 20 + r.n(nnodes), P: r.n(9), M: r.n(4), I: r.n(16), N: r.n(64), D: r.weighted([]int{6, 4, 4, 3, 3, 2, 2, 1, 1, 2})})
+			// X=1: the frame arrives at a minute boundary, together with the purge tick
+			sc.Ops = append(sc.Ops, Op{K: "frame", T: 20 + r.n(nnodes), P: r.n(9), M: r.n(4), I: r.n(16), N: r.n(64), D: r.weighted([]int{6, 4, 4, 3, 3, 2, 2, 1, 1, 2}), X: r.pick(0, 0, 0, 1)})
 		}
 	}
 	// faults on the wire
@@ -242,6 +243,12 @@ func runConc9(e *exec) {
 				return 0, nil
 			})
 		case "frame":
+			if o.X == 1 {
+				simrt.Sleep(int64(time.Minute) - simrt.Now()%int64(time.Minute))
+				if isClosing() {
+					return
+				}
+			}
 			m := clientMAC(o.M)
 			pr["frame"]++
 			zero := netip.MustParseAddr("0.0.0.0")
